@@ -172,6 +172,46 @@ func (h *harness) headstateFamily() {
 				}
 			}
 		}
+		// read faults: every Get/Has and every iterator creation of an undisturbed run (sampled when many)
+		if base := runMigrator(headstate.Migrator{}, nil, d0, btPlan{}, false, 6*time.Second, true); base.ret == "done" {
+			var plans []btPlan
+			st := base.gets/12 + 1
+			for g := int64(1); g <= base.gets; g += st {
+				plans = append(plans, btPlan{FailGetAt: g}, btPlan{FailGetAt: g, FailGetAll: true}, btPlan{FailGetAt: g, Inflate: true})
+			}
+			for i := int64(1); i <= base.iters; i++ {
+				plans = append(plans, btPlan{FailIterAt: i}, btPlan{FailIterAt: i, FailIterAll: true})
+			}
+			for _, plan := range plans {
+				rp := migPlanReplay{Migration: "headstate", Spec: fs, Plan: plan, What: "run with the read fault, then rerun on a healthy store"}
+				oc := runMigrator(headstate.Migrator{}, nil, d0, plan, false, 6*time.Second, true)
+				h.res.Hit("hs-readfault:" + hsRetOf(oc))
+				if oc.ret == "hang" || oc.ret == "panic" {
+					h.res.Violate(lib.Violation{Sig: "headstate-migrate-" + oc.ret + "-on-read-error", What: oc.errText, Replay: rp})
+					continue
+				}
+				post := hsAbstract(oc.final, fs.Chain.Seed, n)
+				lost := false
+				for i, tok := range post {
+					f, f0 := strings.Split(tok, ":"), strings.Split(pre0[i], ":")
+					if f[3] == "x" && (f[0] != f0[0] || f[1] != f0[1] || f[2] != f0[2]) {
+						lost = true
+						h.res.Violate(lib.Violation{Sig: "headstate-read-error-loses-unmigrated-contract",
+							What: fmt.Sprintf("contract #%d lost a deprecated field without getting its record: %s (was %s)", i, tok, pre0[i]), Replay: rp})
+						break
+					}
+				}
+				if lost {
+					continue
+				}
+				h.hsTransition(hsObs{pre0, post, hsRetOf(oc)}, map[string]any{"replay": rp})
+				if oc.ret == "done" {
+					h.hsCheckDone(fs, oc.final, rp)
+					continue
+				}
+				resume(oc.final, "after-read-fault", rp)
+			}
+		}
 		for i := 0; i < 3; i++ {
 			plan := btPlan{CancelAtGet: 1 + int64(h.r.Intn(3*n+2))}
 			if i == 0 {
@@ -317,6 +357,35 @@ func (h *harness) sdlFamily() {
 					}
 					resume(oc.final, st, "after-plan", rp)
 				}
+			}
+		}
+		if base := runMigrator(&statedifflength.Migrator{}, nil, d0, btPlan{}, false, 6*time.Second, true); base.ret == "done" {
+			var plans []btPlan
+			st := base.gets/12 + 1
+			for g := int64(1); g <= base.gets; g += st {
+				plans = append(plans, btPlan{FailGetAt: g}, btPlan{FailGetAt: g, FailGetAll: true}, btPlan{FailGetAt: g, Inflate: true})
+			}
+			for i := int64(1); i <= base.iters; i++ {
+				plans = append(plans, btPlan{FailIterAt: i}, btPlan{FailIterAt: i, FailIterAll: true})
+			}
+			for _, plan := range plans {
+				rp := migPlanReplay{Migration: "statedifflength", Spec: fs, Pruned: c.pruned, Plan: plan, What: "run with the read fault, then rerun on a healthy store"}
+				oc := runMigrator(&statedifflength.Migrator{}, nil, d0, plan, false, 6*time.Second, true)
+				h.res.Hit("sdl-readfault:" + strings.SplitN(sdlRetOf(oc), ":", 2)[0])
+				if oc.ret == "hang" || oc.ret == "panic" {
+					h.res.Violate(lib.Violation{Sig: "statedifflength-migrate-" + oc.ret + "-on-read-error", What: oc.errText, Replay: rp})
+					continue
+				}
+				h.sdlTransition(sdlObs{0, pre0, sdlAbstract(oc.final, height), sdlRetOf(oc), oc.failedReads > 0}, map[string]any{"replay": rp})
+				if oc.ret == "done" {
+					done(oc.final, rp)
+					continue
+				}
+				st := oc.state
+				if oc.ret != "rerun" {
+					st = nil
+				}
+				resume(oc.final, st, "after-read-fault", rp)
 			}
 		}
 		// a stale checkpoint below the pruned prefix / above the height, and a malformed one
